@@ -326,6 +326,11 @@ def train_multi_agent_on_policy(
                             scores[idx].fill(0)
                             if not is_vectorised:
                                 obs, info = env.reset()
+                                if swap_channels:
+                                    obs = {
+                                        agent_id: obs_channels_to_first(s, True)
+                                        for agent_id, s in obs.items()
+                                    }
 
                 experiences = (
                     states,
